@@ -38,7 +38,7 @@ const (
 	kReset
 )
 
-var c10CustomVB = ivg.ViewBox{MinX: -24, MinY: -24, MaxX: 24, MaxY: 24}
+var c10CustomVB = ivg.ViewBox{MinX: -24.3203125, MinY: -24, MaxX: 24, MaxY: 24.5} // MinX = -(24+41/128): off the 1/64 grid, exact in the 4-byte form
 var c10CustomPal = func() [64]color.RGBA {
 	p := ivg.DefaultPalette
 	p[0] = color.RGBA{0x11, 0x22, 0x33, 0xff}
@@ -73,8 +73,8 @@ var c10Letters = []encLetter{
 	{name: "SetCReg(130,false,rgba)", call: mcall(rec.Call{M: rec.MSetCReg, Adj: 130, C: c10Col}), class: kStylingBadAdj},
 	{name: "SetNReg(64,false,1.25)", call: mcall(rec.Call{M: rec.MSetNReg, Adj: 64, A: [6]float32{1.25}}), class: kStylingBadAdj},
 	{name: "AbsLineTo(127.995,4.5)", call: mcall(rec.Call{M: rec.MAbsL, A: [6]float32{127.995, 4.5}}), class: kDraw}, // rounds to 128 at low resolution: outside the 2-byte range
-	{name: "RelArcTo", call: mcall(rec.Call{M: rec.MRelA, LA: true, A: [6]float32{5, 6, 0.25, 7, 8}}), class: kDraw},
-	{name: "AbsHLineTo(-9.003)", call: mcall(rec.Call{M: rec.MAbsH, A: [6]float32{-9.003}}), class: kDraw}, // not a multiple of 1/64
+	{name: "RelArcTo", call: mcall(rec.Call{M: rec.MRelA, LA: true, A: [6]float32{0, 6, 0.25, 7, 8}}), class: kDraw}, // a zero radius: drawn as a line, but an arc operation all the same
+	{name: "AbsHLineTo(-9.003)", call: mcall(rec.Call{M: rec.MAbsH, A: [6]float32{-9.003}}), class: kDraw},           // not a multiple of 1/64
 	{name: "ClosePathAbsMoveTo(10,11)", call: mcall(rec.Call{M: rec.MAbsMove, A: [6]float32{10, 11}}), class: kDraw},
 	{name: "ClosePathEndPath", call: mcall(rec.Call{M: rec.MEndPath}), class: kEnd},
 	{name: "Reset(default)", call: mcall(rec.Call{M: rec.MReset, VB: ivg.DefaultViewBox, Pal: &ivg.DefaultPalette}), class: kReset},
